@@ -330,9 +330,60 @@ return __MAX
             ok, positive = None, False
         ctx.add('C08.R1', construct, ok, (cs.file, line), msg + mod, detail, positive=positive)
 
+    # the settings of the results object: the attributes self.X (other than the results record self.data) that the constructor
+    # stores.  They say how the results are judged and shown (identification_threshold); they are not quantities of the estimation
+    init = BR.methods.get('__init__')
+    settings = set()
+    if init is not None:
+        for n in walk_no_nested(init.node):
+            for t in _store_targets(n):
+                if isinstance(t, ast.Attribute) and isinstance(t.value, ast.Name) and t.value.id == 'self' and t.attr != 'data':
+                    settings.add(t.attr)
+
+    def setting_entering(st: ast.AST, e: ast.AST):
+        """(setting, how) when the value of e, evaluated by the statement st of _calculate_stats, certainly depends on a setting
+        self.<X> of the results object; None when it does not or when the rule cannot tell.  Certain means: read in e itself, or in
+        what is stored (value, index or mask of an element store, operand of an augmented assignment) into a local that e reads,
+        by statements of the very statement list that holds st, before st, with no store to that local anywhere else: they all
+        run before st and nothing else makes the local (followed through the locals in the same way)"""
+        def go(st_, x, depth):
+            for n in ast.walk(x):
+                if isinstance(n, ast.Attribute) and isinstance(n.ctx, ast.Load) and isinstance(n.value, ast.Name) and n.value.id == 'self' and n.attr in settings:
+                    return n.attr, None
+            blk = block_of(st_)
+            if blk is None or depth == 0:
+                return None
+            for nm in free_names(x):
+                every = stores_of(cs.node, nm.id)
+                if not every or any(w not in blk or blk.index(w) >= blk.index(st_) or not isinstance(w, (ast.Assign, ast.AugAssign)) for w in every):
+                    continue
+                if any(isinstance(y, ast.Name) and y.id == nm.id and not isinstance(y.ctx, ast.Load) and not any(y in ast.walk(w) for w in every) for y in ast.walk(cs.node)):
+                    continue  # (bound in a nested function, a comprehension, a walrus ...)
+                plain = [w for w in every if plain_store(w, nm.id)]
+                if not plain:
+                    continue
+                live = [w for w in every if blk.index(w) >= blk.index(plain[-1])]  # the last whole assignment and what modifies its value afterwards
+                for w in live:
+                    parts = [w.value] + [t_.slice for t in (w.targets if isinstance(w, ast.Assign) else [w.target]) for t_ in ast.walk(t) if isinstance(t_, ast.Subscript)]
+                    for part in parts:
+                        r = go(w, part, depth - 1)
+                        if r is not None:
+                            return r[0], (r[1] or f'{nm.id} is made with it at line {w.lineno} (`{unparse(w)[:70]}`)')
+            return None
+        return go(st, e, 5)
+
     s = single('self.data.varCovar')
     ok = unparse(s.value).replace(' ', '') in ('-linalg.pinv(np.nan_to_num(self.data.H))', '-linalg.pinv(self.data.H)', '-np.linalg.pinv(np.nan_to_num(self.data.H))')
-    add_matrix('matrix:varCovar', 'self.data.varCovar', ok, s.lineno, f'varCovar = {unparse(s.value)}' + ('' if ok else '; expected -pinv(H)'), unparse(s.value))
+    # necessary condition: -pinv(H) is a function of the Hessian alone.  A setting of the results object that certainly enters the
+    # value of the matrix makes it something else than the pseudo-inverse of minus the Hessian (the same H, another setting, another matrix)
+    dep = None if ok else setting_entering(s, s.value)
+    if dep is not None:
+        add_matrix('matrix:varCovar', 'self.data.varCovar', False, s.lineno,
+                   f'varCovar = {unparse(s.value)[:90]}: its value depends on the setting self.{dep[0]} of the results object' + (f' ({dep[1]})' if dep[1] else '')
+                   + '; the variance-covariance matrix is -pinv(H), a function of the Hessian alone: with the same Hessian, another value of the setting gives other variances, standard errors, t and p',
+                   unparse(s.value), positive=True)
+    else:
+        add_matrix('matrix:varCovar', 'self.data.varCovar', ok, s.lineno, f'varCovar = {unparse(s.value)}' + ('' if ok else '; expected -pinv(H)'), unparse(s.value))
     s = single('self.data.robust_varCovar')
     ok = unparse(s.value).replace(' ', '').replace('\n', '') in ('self.data.varCovar.dot(self.data.bhhh.dot(self.data.varCovar))', 'self.data.varCovar@self.data.bhhh@self.data.varCovar', 'self.data.varCovar.dot(self.data.bhhh).dot(self.data.varCovar)')
     def chain(e):
